@@ -67,7 +67,9 @@ pub fn single_node(src: &[u8], start: u32, end: u32) -> TreeData {
   t
 }
 
-/// symbolic UTF-8 text of at most NCH characters drawn from {a, é (2 B), 😀 (4 B), \n};
+/// symbolic UTF-8 text of at most NCH characters drawn from {a, \n, é (2 B), U+07FF (2 B,
+/// leader 0xDF), U+0800 (3 B, leader 0xE0), U+FFFD (3 B, leader 0xEF), 😀 (4 B)}: the leaders
+/// sit on the boundaries between the UTF-8 length classes;
 /// returns (bytes, byte length, number of chars)
 #[cfg(kani)]
 pub fn any_utf8<const NCH: usize, const NB: usize>() -> ([u8; NB], usize, usize) {
@@ -79,8 +81,25 @@ pub fn any_utf8<const NCH: usize, const NB: usize>() -> ([u8; NB], usize, usize)
   while i < NCH {
     if i < nch {
       let c: u8 = kani::any();
-      kani::assume(c < 4);
-      if c == 0 {
+      kani::assume(c < 7);
+      if c == 4 {
+        // U+0800: smallest three-byte character (leader 0xE0)
+        buf[len] = 0xE0;
+        buf[len + 1] = 0xA0;
+        buf[len + 2] = 0x80;
+        len += 3;
+      } else if c == 5 {
+        // U+FFFD: leader 0xEF, the largest three-byte leader
+        buf[len] = 0xEF;
+        buf[len + 1] = 0xBF;
+        buf[len + 2] = 0xBD;
+        len += 3;
+      } else if c == 6 {
+        // U+07FF: largest two-byte character (leader 0xDF)
+        buf[len] = 0xDF;
+        buf[len + 1] = 0xBF;
+        len += 2;
+      } else if c == 0 {
         buf[len] = b'a';
         len += 1;
       } else if c == 1 {
